@@ -1,0 +1,158 @@
+//! Verification seam (cargo feature `verif`).
+//!
+//! With the feature enabled every source of nondeterminism of the engine (channels, threads,
+//! locks, sockets, clocks, randomness) is routed through the object-safe [`Rt`] trait, which an
+//! external model checker implements. Nothing in this module is compiled in a normal build.
+use std::cell::Cell;
+use std::time::Duration;
+
+pub mod clock;
+pub mod flume_shim;
+pub mod graph;
+pub mod nanorand_shim;
+pub mod net;
+pub mod observe;
+pub mod std_shim;
+pub mod sync;
+pub mod testkit;
+pub mod thread;
+
+pub type TaskId = usize;
+
+/// The visible operation a task is about to perform (announced before the scheduling point).
+#[derive(Clone, Copy, Debug, PartialEq, Eq, Hash)]
+pub enum Op {
+    Send(usize),
+    Recv(usize),
+    Select(usize, usize),
+    Lock(usize),
+    Wait(usize),
+    Barrier(usize),
+    Join(usize),
+    NetRead(usize),
+    NetWrite(usize),
+    Net(usize),
+    Sleep,
+    Global,
+}
+
+/// Kind of an environment answer.
+#[derive(Clone, Copy, Debug, PartialEq, Eq, Hash)]
+pub enum ChoiceKind {
+    /// Which side of a two-way select is served when both are ready.
+    Select,
+    /// Destination picked by the random next-strategy.
+    Random,
+    /// How many bytes a socket read returns.
+    ShortRead,
+    /// How many bytes a socket write accepts.
+    ShortWrite,
+    /// Order in which downstream blocks are served (hash-map iteration order in `End`).
+    Perm,
+    /// Driver choices of the harness.
+    Driver,
+}
+
+/// Tunable parameters of the environment model.
+#[derive(Clone, Copy, Debug, PartialEq, Eq, Hash)]
+pub enum Param {
+    /// Capacity used instead of `n` for bounded channels created with capacity `n` (0 = keep).
+    ChannelCapacity(usize),
+    /// Arity of the random next-strategy choice.
+    RandomArity,
+    /// Capacity in bytes of a virtual socket pipe.
+    PipeCapacity,
+    /// Whether short reads/writes are enumerated (1) or sockets always transfer the maximum (0).
+    ShortIo,
+    /// Whether link events should be reported through `observe` (1) or not (0).
+    ObserveLinks,
+}
+
+pub trait Rt {
+    /// Announce the next visible operation of the current task; this is a scheduling point.
+    fn op(&self, op: Op);
+    fn me(&self) -> TaskId;
+    /// Block the current task until `unblock`ed or, if `timeout` is given, until the virtual
+    /// clock reaches the deadline. Returns true iff woken by the timer.
+    fn block(&self, timeout: Option<Duration>) -> bool;
+    fn unblock(&self, t: TaskId);
+    fn spawn(&self, name: String, f: Box<dyn FnOnce() + Send>) -> TaskId;
+    fn join(&self, t: TaskId);
+    fn choose(&self, kind: ChoiceKind, arity: usize) -> usize;
+    fn new_object(&self) -> usize;
+    /// Virtual time since the beginning of the execution.
+    fn now(&self) -> Duration;
+    fn observe(&self, ev: observe::Event);
+    fn param(&self, p: Param) -> usize;
+    /// Happens-before bookkeeping: snapshot the current task's clock (and tick it); returns a
+    /// token a later `hb_acquire` can join with. Used for the data-race detector only.
+    fn hb_release(&self) -> u64;
+    fn hb_acquire(&self, token: u64);
+}
+
+pub(crate) fn hb_release() -> u64 {
+    try_rt().map(|r| r.hb_release()).unwrap_or(0)
+}
+pub(crate) fn hb_acquire(token: u64) {
+    if token != 0 {
+        if let Some(r) = try_rt() {
+            r.hb_acquire(token)
+        }
+    }
+}
+
+/// Canonical order of the downstream blocks served by an `End`, then the permutation picked by
+/// the runtime (stands for the hash-map iteration order of the normal build).
+pub(crate) fn order_block_senders(
+    groups: &mut Vec<crate::operator::end::BlockSenders>,
+    permute: bool,
+) {
+    groups.sort_by_key(|g| g.indexes.first().copied().unwrap_or(usize::MAX));
+    let k = groups.len();
+    if !permute || !(2..=4).contains(&k) {
+        return;
+    }
+    let fact: usize = (1..=k).product();
+    let mut code = match try_rt() {
+        Some(r) => r.choose(ChoiceKind::Perm, fact),
+        None => 0,
+    };
+    // decode the permutation (factorial number system), identity for 0
+    let mut pool: Vec<_> = std::mem::take(groups);
+    let mut f = fact;
+    for i in (1..=k).rev() {
+        f /= i;
+        let idx = code / f;
+        code %= f;
+        groups.push(pool.remove(idx));
+    }
+}
+
+thread_local! {
+    static RT: Cell<Option<&'static dyn Rt>> = const { Cell::new(None) };
+}
+
+/// Install (or remove) the runtime for the current OS thread and reset the per-execution state of
+/// the environment model.
+pub fn install(rt: Option<&'static dyn Rt>) {
+    RT.with(|c| c.set(rt));
+    net::reset();
+}
+
+pub fn rt() -> &'static dyn Rt {
+    RT.with(|c| c.get())
+        .expect("verif runtime not installed on this thread")
+}
+
+pub fn try_rt() -> Option<&'static dyn Rt> {
+    RT.with(|c| c.get())
+}
+
+pub(crate) fn wake(list: Vec<TaskId>) {
+    if let Some(rt) = try_rt() {
+        for t in list {
+            rt.unblock(t);
+        }
+    }
+}
+pub use crate::stream::VerifChain;
